@@ -23,7 +23,7 @@ import random
 from sim import aioloop as A
 from sim.adata import FAULT_CLASSES
 from sim.envs import clear_process_caches
-from sim.core import Outcome, digest, exc_key, scrub
+from sim.core import native_text, Outcome, digest, exc_key, scrub
 from sim.envs import AE_MODES, CodeMemo
 from sim.probe import PEvents, make_probe_data
 from sim.tape import Tape, run_seed
@@ -83,7 +83,25 @@ def _make_env(P, sandboxed, is_async, ae, lc):
         extensions=["jinja2.ext.loopcontrols"] if lc else [],
         bytecode_cache=CodeMemo(("c38", sandboxed, is_async, ae, lc)),
     )
-    env.globals["gf"] = GlobalProbe()
+    gp = env.globals["gf"] = GlobalProbe()
+
+    @jinja2.pass_context
+    def gcx(ctx, name):
+        if gp.ev is not None:
+            gp.ev.ev("gcall")
+        return ctx.resolve(name)
+
+    class GStr:
+        def __str__(self) -> str:
+            if gp.ev is not None:
+                gp.ev.ev("str")
+            return "G!"
+
+        def __repr__(self) -> str:
+            return "GStr()"
+
+    env.globals["gcx"] = gcx
+    env.globals["gso"] = GStr()
     env.globals["gn"] = 3
     env.globals["gd"] = {"k1": 1, "k2": [2]}
     return env
@@ -154,7 +172,7 @@ def _render_once(env, is_async, entry, api, data, tape):
 
 def _key(res):
     if res[0] == "ok":
-        return ("ok", scrub(res[1] if isinstance(res[1], str) else "native:" + type(res[1]).__name__ + ":" + repr(res[1])))
+        return ("ok", scrub(native_text(res[1])))
     return ("raised", exc_key(res[1]))
 
 
